@@ -21,7 +21,7 @@ Step ==
   /\ LET r == Rec[l] ev == r.ev IN
      CASE ev = "treset" -> /\ scen' = r.scenario /\ cur' = [call |-> r.call, t_us |-> r.t_us, invalid |-> r.invalid, long |-> r.long]
                            /\ UNCHANGED nviol
-       [] ev \in {"tw_b", "tend", "pre"} -> UNCHANGED <<scen, cur, nviol>>
+       [] ev \in {"tw_b", "tend", "pre", "signals"} -> UNCHANGED <<scen, cur, nviol>>
        [] ev = "probe" -> /\ (~r.zero => Viol("probe_blocking", cur.call)) /\ nviol' = nviol + Count(~r.zero)
                           /\ UNCHANGED <<scen, cur>>
        [] ev = "tw_e" ->
